@@ -62,11 +62,17 @@ def make_replay(C, prop, h, res):
         except subprocess.TimeoutExpired as e:
             out = (e.stdout or b"").decode(errors="replace") if isinstance(e.stdout, bytes) else (e.stdout or "")
             detail = "concrete playback generation timed out; "
+        try:  # kept next to the artifact: what kani-driver said (for triage of replays that do not reproduce)
+            with open(path[:-5] + ".kani-driver.log", "w") as lf:
+                lf.write(out)
+        except OSError:
+            pass
         # Kani prints one test per failed check AND one per satisfied cover!; take the first that is not a cover
         m = None
         for blk in out.split("Concrete playback unit test for")[1:]:
-            chk = re.search(r"/// Check for `([^`]*)`: \"(.*)\"", blk)
-            if chk and chk.group(1) == "cover":
+            # (descriptions can span several lines - match the class only)
+            chk = re.search(r"/// Check for `([^`]*)`:\s*\"?([^\n]*)", blk)
+            if chk is None or chk.group(1) == "cover":
                 continue
             m = re.search(r"let concrete_vals: Vec<Vec<u8>> = vec!\[(.*?)\n\s*\];", blk, re.S)
             if m:
